@@ -398,11 +398,13 @@ func checkC19(c *Ctx, r *Report) {
 							nsend++
 							timed := false
 							for _, st2 := range x.States {
-								if st2.Dir == types.RecvOnly {
+								// only a timer bounds the wait: other channels (the connection's close
+								// notification, a done channel) may never deliver
+								if st2.Dir == types.RecvOnly && isTimerChan(f, st2.Chan, false) {
 									timed = true
 								}
 							}
-							r.check(!x.Blocking || timed, "C19.R2", key, posOf(c, ins), "send inside a select with default / time-out", "send inside a blocking select without time-out")
+							r.check(!x.Blocking || timed, "C19.R2", key, posOf(c, ins), "send inside a select with default / time-out", "send inside a blocking select whose other cases are not a time-out: when nobody receives (the request gave up, a surplus answer) the handler waits for ever - go-diameter's close notification, for one, is not delivered for a connection that is closed while its reader waits")
 						}
 					}
 				}
@@ -450,41 +452,44 @@ func c19GiveUpCloses(c *Ctx, f *ssa.Function) string {
 	return ""
 }
 
-// c19BoundedWaits (R6): the waits of the two client functions.
-func c19BoundedWaits(c *Ctx, r *Report, rule string) {
-	isTimerChan := func(f *ssa.Function, ch ssa.Value, localOnly bool) bool {
-		ch = stripConv(ch)
-		if call, ok := ch.(*ssa.Call); ok {
-			if obj := calleeObj(&call.Call); obj != nil && obj.Pkg() != nil {
-				if obj.Pkg().Path() == "time" && (obj.Name() == "After" || obj.Name() == "Tick") {
-					return true
-				}
-				if obj.Pkg().Path() == "context" && obj.Name() == "Done" {
-					return true
-				}
+// isTimerChan: the channel of a timer (time.After / NewTimer(..).C / ctx.Done()); with localOnly
+// a timer member must belong to a timer made in f.
+func isTimerChan(f *ssa.Function, ch ssa.Value, localOnly bool) bool {
+	ch = stripConv(ch)
+	if call, ok := ch.(*ssa.Call); ok {
+		if obj := calleeObj(&call.Call); obj != nil && obj.Pkg() != nil {
+			if obj.Pkg().Path() == "time" && (obj.Name() == "After" || obj.Name() == "Tick") {
+				return true
 			}
-			if call.Call.IsInvoke() && call.Call.Method.Name() == "Done" {
+			if obj.Pkg().Path() == "context" && obj.Name() == "Done" {
 				return true
 			}
 		}
-		if ld, ok := ch.(*ssa.UnOp); ok && ld.Op == token.MUL {
-			if fa, ok := ld.X.(*ssa.FieldAddr); ok && fieldName(fa) == "C" && typeIs(fa.X.Type(), "time", "Timer") {
-				if !localOnly {
+		if call.Call.IsInvoke() && call.Call.Method.Name() == "Done" {
+			return true
+		}
+	}
+	if ld, ok := ch.(*ssa.UnOp); ok && ld.Op == token.MUL {
+		if fa, ok := ld.X.(*ssa.FieldAddr); ok && fieldName(fa) == "C" && typeIs(fa.X.Type(), "time", "Timer") {
+			if !localOnly {
+				return true
+			}
+			t := fa.X
+			for i := 0; i < 4; i++ {
+				t = resolveLocalLoad(t)
+			}
+			if call, ok := t.(*ssa.Call); ok {
+				if obj := calleeObj(&call.Call); obj != nil && obj.Pkg() != nil && obj.Pkg().Path() == "time" && (obj.Name() == "NewTimer" || obj.Name() == "AfterFunc") {
 					return true
-				}
-				t := fa.X
-				for i := 0; i < 4; i++ {
-					t = resolveLocalLoad(t)
-				}
-				if call, ok := t.(*ssa.Call); ok {
-					if obj := calleeObj(&call.Call); obj != nil && obj.Pkg() != nil && obj.Pkg().Path() == "time" && (obj.Name() == "NewTimer" || obj.Name() == "AfterFunc") {
-						return true
-					}
 				}
 			}
 		}
-		return false
 	}
+	return false
+}
+
+// c19BoundedWaits (R6): the waits of the two client functions.
+func c19BoundedWaits(c *Ctx, r *Report, rule string) {
 	for _, a := range [][2]string{{"internal/abmf", "SendAccountDebitRequest"}, {"internal/rating", "SendServiceUsageRequest"}} {
 		f := c.fn(a[0], a[1])
 		n := 0
@@ -572,14 +577,35 @@ func c19SingleConsumer(c *Ctx, r *Report, rule string) {
 				pos[k] = posOf(c, ld)
 			}
 			refs := append([]ssa.Instruction{}, *ld.Referrers()...)
+			aliases := map[ssa.Value]bool{ld: true}
+			keptLocally := map[ssa.Instruction]bool{}
 			for i := 0; i < len(refs); i++ {
 				// a direction conversion (chan -> <-chan) is still the same channel
 				if ct, ok := refs[i].(*ssa.ChangeType); ok {
+					aliases[ct] = true
 					refs = append(refs, *ct.Referrers()...)
+				}
+				// kept in a member of a local object that does not leave the function (the state of
+				// one exchange): what is read back from that member is the same channel
+				if st, ok := refs[i].(*ssa.Store); ok && aliases[st.Val] {
+					if k, ok := localMemberOf(st.Addr); ok && localDoesNotEscape(k.root) {
+						keptLocally[st] = true
+						eachInstr(f, func(_ *ssa.BasicBlock, _ int, i2 ssa.Instruction) {
+							if l2, ok := i2.(*ssa.UnOp); ok && l2.Op == token.MUL && !aliases[l2] {
+								if k2, ok := localMemberOf(l2.X); ok && k2 == k {
+									aliases[l2] = true
+									refs = append(refs, *l2.Referrers()...)
+								}
+							}
+						})
+					}
 				}
 			}
 			for _, ref := range refs {
 				bad := ""
+				if keptLocally[ref] {
+					continue
+				}
 				switch x := ref.(type) {
 				case *ssa.ChangeType:
 				case *ssa.UnOp:
@@ -588,7 +614,7 @@ func c19SingleConsumer(c *Ctx, r *Report, rule string) {
 					}
 				case *ssa.Select:
 					for _, stt := range x.States {
-						if stt.Chan == ssa.Value(ld) && stt.Dir == types.RecvOnly && !clients[f] {
+						if aliases[stt.Chan] && stt.Dir == types.RecvOnly && !clients[f] {
 							bad = "receives from it in a select"
 						}
 					}
@@ -860,16 +886,23 @@ func c19OwnChannel(c *Ctx, r *Report, rule string) {
 		{"internal/rating", "SendServiceUsageRequest", "HandleSUA"},
 	}
 	ueField := func(v ssa.Value) (string, bool) {
-		v = stripConv(v)
-		ld, ok := v.(*ssa.UnOp)
-		if !ok || ld.Op != token.MUL {
-			return "", false
+		// the member itself, or what a local exchange object read back holds
+		for i := 0; i < 4; i++ {
+			v = stripConv(v)
+			ld, ok := v.(*ssa.UnOp)
+			if !ok || ld.Op != token.MUL {
+				return "", false
+			}
+			if fa, ok := ld.X.(*ssa.FieldAddr); ok && typeIs(fa.X.Type(), ctxPath, "ChfUe") {
+				return fieldName(fa), true
+			}
+			nv := resolveMem(v)
+			if nv == v {
+				return "", false
+			}
+			v = nv
 		}
-		fa, ok := ld.X.(*ssa.FieldAddr)
-		if !ok || !typeIs(fa.X.Type(), ctxPath, "ChfUe") {
-			return "", false
-		}
-		return fieldName(fa), true
+		return "", false
 	}
 	for _, p := range pairs {
 		client, ctor := c.fn(p.pkg, p.client), c.fn(p.pkg, p.ctor)
